@@ -386,7 +386,10 @@ func runC10(w *World, r *Report) {
 			a := c.Common().Args
 			okArgs := strings.Contains(Path(a[1]), "StrategyBasedQueue.TTLSeconds") && strings.HasSuffix(Path(a[1]), "* 1000000000)") && strings.HasSuffix(Path(a[2]), "StrategyBasedQueue.QueueSize")
 			r.Check(okArgs, "R7", "plugin/enqueue-args", posOf(c), "Enqueue(_, %s, %s)", Path(a[1]), Path(a[2]))
-			isCan := func(v ssa.Value) bool { p := Path(v); return strings.Contains(p, "DelayedPriorityQueueable).Enqueue(") && strings.HasSuffix(p, "#0") }
+			isCan := func(v ssa.Value) bool {
+				p := Path(v)
+				return strings.Contains(p, "DelayedPriorityQueueable).Enqueue(") && strings.HasSuffix(p, "#0")
+			}
 			nNo, nRej := 0, 0
 			for _, alt := range ReturnAlts(on, 0) {
 				if !domInstr(c, alt.Ret) {
